@@ -11,6 +11,24 @@ CHECKS = {
    design_ref="DESIGN.md section 3, C01",
    note="Trusts: Go stdlib (strconv, net.Resolve*Addr, x509) inside the reference parser; the scripted runner as a faithful stand-in for a process' stdout pipe (cross-checked by the real-subprocess sample); hang threshold H=max(4*StartTimeout, StartTimeout+15s).",
    technique="runtime monitoring: reference-parser oracle over generated handshake lines, race detector on"),
+ "C10": dict(
+   category="exploration",
+   text="Runtime monitor: ~950 (quick) / ~16k (thorough) stderr byte sequences and stdout volumes are written by a scripted in-process plugin through unbuffered pipes into the real Client; the copy delivered to ClientConfig.Stderr and the exact log records (captured with an hclog intercept sink) are compared with a reference line/record model written from the statement; a writer still blocked after the watchdog, a host death, a copy or record mismatch is a violation.",
+   design_ref="DESIGN.md section 3, C10",
+   note="Trusts encoding/json in the reference model; in-process io.Pipe stands in for the OS pipes (no 64 KiB kernel buffer: stricter on back-pressure). Lenient classes (ill-typed JSON, lines longer than the buffer) are listed in the evidence assumptions.",
+   technique="runtime monitoring: reference log-record model over generated stderr/stdout byte streams, race detector on"),
+ "C17": dict(
+   category="exploration",
+   text="Runtime monitor: for 96 configuration x 6 ambient-environment combinations per launch method the environment handed to a custom runner and the environment actually received by a real child (plus its stdin identity) are captured and compared, variable by variable, with what the client configuration determines; end-to-end cases launch a real serving plugin from a host that carries PLUGIN_* variables and require the configured mode to work.",
+   design_ref="DESIGN.md section 3, C17",
+   note="Effective environment computed as os/exec does (last duplicate wins); empty value = absent; host child's stdin is a distinctive regular file so that stdin pass-through is observable.",
+   technique="runtime monitoring: environment capture at the runner boundary and in a real child, set-comparison oracle"),
+ "C19": dict(
+   category="exploration",
+   text="Runtime monitor: ~360 (quick) / ~8k (thorough) sequential and concurrent programs over Start/Client/Protocol/ReattachConfig/ID/Exited/Kill are run against one Client per program (scripted runner with a live in-process server, failing starts, real processes) under the race detector; oracles are launch counters, identity of returned addresses/clients, a porcupine linearizability check of each recorded call/return history against a sequential life-cycle model, and race reports attributed to go-plugin by accessing frame.",
+   design_ref="DESIGN.md section 3, C19",
+   note="Trusts porcupine v1.3.0 and the Go race detector; the life-cycle model leaves ID/Exited unconstrained while a Kill may be in flight.",
+   technique="runtime monitoring: recorded-history linearizability (porcupine) + launch counters + Go race detector"),
 }
 PENDING_REASON = "check not built yet in this revision; it is planned as a runtime monitor (see DESIGN.md section 3) and will move to 'checks' when it exists"
 
